@@ -292,35 +292,36 @@ func c10(p *P) {
 	}
 }
 
-// effectSequences enumerates the classified-effect sequences along acyclic CFG paths from entry to any return/panic.
+// effectSequences enumerates the classified-effect sequences along acyclic paths of the spliced CFG from entry to any exit.
 func effectSequences(fn *ssa.Function, class map[ssa.Instruction]string) map[string]bool {
 	out := map[string]bool{}
-	var walk func(b *ssa.BasicBlock, onPath map[int]bool, seq []string)
+	vf := vfuncOf(fn)
 	steps := 0
-	walk = func(b *ssa.BasicBlock, onPath map[int]bool, seq []string) {
+	var walk func(n *VNode, onPath map[*VNode]bool, seq []string)
+	walk = func(n *VNode, onPath map[*VNode]bool, seq []string) {
 		steps++
 		if steps > 2000000 {
 			return
 		}
-		for _, in := range b.Instrs {
+		for _, in := range n.Instrs {
 			if c, ok := class[in]; ok {
 				seq = append(seq[:len(seq):len(seq)], c)
 			}
 		}
-		if len(b.Succs) == 0 {
+		if len(n.Succs) == 0 {
 			out[strings.Join(seq, " ")] = true
 			return
 		}
-		onPath[b.Index] = true
-		for _, s := range b.Succs {
-			if !onPath[s.Index] {
+		onPath[n] = true
+		for _, s := range n.Succs {
+			if !onPath[s] {
 				walk(s, onPath, seq)
 			}
 		}
-		delete(onPath, b.Index)
+		delete(onPath, n)
 	}
-	if len(fn.Blocks) > 0 {
-		walk(fn.Blocks[0], map[int]bool{}, nil)
+	if vf.Entry != nil {
+		walk(vf.Entry, map[*VNode]bool{}, nil)
 	}
 	return out
 }
